@@ -64,6 +64,10 @@ pub fn specs() -> Vec<PropSpec> {
         if let Some(p) = v.iter_mut().find(|p| p.id == "C07") {
             p.stages.push(coll!("C07", 100_000, 2_000_000));
         }
+        prop!("C09", Stage { engine: || Box::new(crate::strings::StrEngine { split_mix: false }), quick_cases: 400_000, thorough_cases: 10_000_000 });
+        if let Some(p) = v.iter_mut().find(|p| p.id == "C16") {
+            p.stages.push(Stage { engine: || Box::new(crate::strings::StrEngine { split_mix: true }), quick_cases: 100_000, thorough_cases: 2_000_000 });
+        }
         // C12: the real-arena half rides on engine A
         if let Some(p) = v.iter_mut().find(|p| p.id == "C12") {
             p.stages.push(arena!("C12", 120_000, 3_000_000));
